@@ -48,7 +48,7 @@ ROWS = {
          "T: indexAlpha, goroutine-structure facts · H: model",
          "purego-race:argonsched (GOMAXPROCS 1,2,3,16 + noise goroutines, keys = sequential model, goroutine count), argon", "that the go/Wait syntax has the modelled meaning is runtime behaviour (observed)"),
  "C10": ("C10General.roundtrip_L6 / roundtrip_general and TiWf.roundtrip_of_typeInfoOf: for an ARBITRARY struct type that getTypeInfo accepts (tiWf is proved for everything typeInfoOf builds from supported field types) and a value inside the explicit decidable hypothesis (Unambiguous ∧ groupsSeparated; typed ∧ Representable ∧ lastTextOk ∧ noSteal) Unmarshal(Marshal v) = v — params, inline, codecs, groups, omitempty, trailing optionals; needs_* (each clause necessary); strconv round trips; parse∘render; roundtrip_/canonical_⟨S⟩ for the ten shipped layouts",
-         "T: shapes · H: codec",
+         "T: shapes, and the type-info layer (TypeInfoIR: getRawTypeInfo with its tag loop, field, normalize, cold getTypeInfo regenerated = fieldOpts/rawFields/resolveParam/normalizeLoop/typeInfoOf) · H: Marshal/Unmarshal walkers",
          "codec (run-time generated struct types incl. layout-shaped ones; round trip, re-marshal stability; the in-domain direct check uses the theorem's hypothesis)", "codec model tied differentially; F12"),
  "C11": ("parse_lossless, parse_eq_ref (= split-based reference on every input), spans_exact, values_no_delim, groups_surface_once, parse_error_iff, lexer terminal token last, lexer_goroutine_facts (regenerated)",
          "T: the whole lexer and parser (ParseFlow/DispatchFlow: regenerated structured IR = model, for every input), goroutine-structure facts", "parse (all strings ≤ 7 over the delimiter alphabet + random; token streams via hook; goroutine count)", "the channel is modelled as a producer list (rendezvous); goroutine exit observed"),
@@ -62,16 +62,16 @@ ROWS = {
  "C15": ("randSymbols_length / _in_alphabet / symbol_map_bijective (salt as a function of entropy), sha1 randRounds window, rand_source_pure (regenerated import facts)",
          "T: facts, constants · H: Rand", "salt (2 000/50 000 calls per scheme: distinctness, coverage, 8σ bound; mixed histories; salt = f(entropy) under scripted entropy)", "OS entropy quality; the statistical run is a test"),
  "C16": ("encode = bit-level spec, decode∘encode = id ∀ byte strings and padding modes; C16Decode.decode_eq_ref: the model's Decode (three paths, padding, newlines, strict) = an independent declarative reference decoder for ALL texts, result bytes and error offsets; accepted_is_canonical_or_tolerated, never_silent_garbage, malformed_rejected, decode_never_panics; alphabets regenerated; B64IR.*_ir_eq_model: the BODIES of Encode, EncodeToString, EncodedLen, DecodeString, Decode, decodeQuantum, assemble32/64, DecodedLen regenerated from the Go source (loops, switch/fallthrough, break/continue, slicing, PutUint64/32, int wrap-around) and interpreted over a heap of byte buffers = the hand model, for all inputs, panics included",
-         "T: the nine function bodies (buffer IR), symbol/quantum/assemble/length expressions, alphabets · H: NewEncoding/WithPadding/Strict (constructors)",
-         "b64 (exhaustive 1-/2-byte tails, quanta sample, random strings to 4096, malformed edits incl. bytes ≥ 0xF0, both option orders)", "buffer-IR translator and interpreter; constructors tied by correspondence; int wrap of EncodedLen beyond 2^60 and negative padding runes are outside the hand model's domain (the programs cover them)"),
- "C17": ("enc_chunks_eq_oneshot ∀ chunkings; dec_fragmentation_eq_oneshot ∀ fragmentations; enc_fault_prefix_sticky, dec_err_sticky", "H",
-         "stream (all compositions ≤ 9, random chunkings, caller buffers 1..4096, every fault position × kind)", "scripted reader/writer assumed well-behaved"),
- "C18": ("history_independent (getTypeInfo's result = cold-cache result for ALL call histories), forms_agree, reports_own_struct, invalid_tags_every_call", "measured facts + H",
+         "T: all twelve function bodies — the nine coders (buffer IR) and NewEncoding/WithPadding/Strict (B64IRCtor) —, symbol/quantum/assemble/length expressions, alphabets",
+         "b64 (exhaustive 1-/2-byte tails, quanta sample, random strings to 4096, malformed edits incl. bytes ≥ 0xF0, both option orders)", "buffer-IR translator and interpreter; int wrap of EncodedLen beyond 2^60 and negative padding runes are outside the hand model's domain (the programs cover them)"),
+ "C17": ("enc_chunks_eq_oneshot ∀ chunkings; dec_fragmentation_eq_oneshot ∀ fragmentations; enc_fault_prefix_sticky, dec_err_sticky; SIR.encoderWrite/encoderClose/decoderRead/nfrRead_ir_eq_model: the regenerated Write/Close/Read bodies = the stream model for every state, chunk and script", "T: encoder.Write/Close, NewEncoder, decoder.Read, newlineFilteringReader.Read, NewDecoder (stream IR over an object store; io.Reader/io.Writer as scripted external objects)",
+         "stream (all compositions ≤ 9, random chunkings, caller buffers 1..4096, every fault position × kind)", "stream-IR translator and interpreter; the reader script must eventually report an error (Live): a reader answering (0, nil) forever makes Go's refill loop spin and is outside C17's fault kinds"),
+ "C18": ("history_independent (getTypeInfo's result = cold-cache result for ALL call histories), forms_agree, reports_own_struct, invalid_tags_every_call; TypeInfoIR.getTypeInfo_cold_eq_typeInfoOf: the cold path regenerated from source = typeInfoOf", "T: cold path of getTypeInfo, normalize, getRawTypeInfo · measured facts (hook) · H: cache protocol",
          "cache (histories over named types; fresh-type, invalid-tag, shared-embedding and prefix-embedding families vs cold siblings; pointer-receiver codec in T/*T/**T)", "reflect"),
  "C19": ("secretSafe'_⟨S⟩ decided on the regenerated flow IR of every Check; secretSafe'_sound, mismatch_cost_independent_of_position/_of_key (cost semantics), ⟨S⟩_mismatch_cost", "T: flow IR",
          "flowcheck (names the offending statement)", "statement translator; machine-level constant time of subtle/encoders"),
  "C20": ("C10General.accepted_respell_all / TiWf.accepted_respell_of_typeInfoOf: for an ARBITRARY struct type that getTypeInfo accepts, with consistent options, every accepted string is a tolerated respelling of Marshal(value read); needs_* (exclusions necessary); Accept.accepts_only_respellings_⟨S⟩ for the ten layouts; parser lossless/exact (C11)",
-         "T: shapes · H: codec",
+         "T: shapes, and the type-info layer (TypeInfoIR: getRawTypeInfo with its tag loop, field, normalize, cold getTypeInfo regenerated = fieldOpts/rawFields/resolveParam/normalizeLoop/typeInfoOf) · H: Marshal/Unmarshal walkers",
          "codec (edit-distance-1 neighbourhoods, splices incl. duplicated parameters and wrap-around integers, short strings; accepted-but-unwritable values)", "codec model tied differentially; F10, F13, F14, F15"),
 }
 
